@@ -1,7 +1,7 @@
 (* Statements about the exporter pipeline (Model/System.v): no panics (C02, C19), scrapes always
    succeed (C03), conflicts are isolated (C08), labels are local (C05), counter guard (C06),
    what a loaded configuration guarantees (C19). *)
-From SE Require Export Model.System.
+From SE Require Export Model.System Spec.MapperSpec.
 From Coq Require Import ZArith.
 
 (* ---------- C19: what [load] guarantees / rejects ---------- *)
@@ -131,9 +131,12 @@ Fixpoint gather_outs (outs : list out) : list (bool * list sample) :=
   | _ :: r => gather_outs r
   end.
 
-(* after any history, every scrape succeeds, provided the binary's own families are consistent
-   and no exposed series uses (or suffix-collides with) one of their names *)
-Definition stmt_scrape_ok : Prop := forall f cache t0 ops,
+(* after any history, every scrape succeeds, provided the mapping cache is sound (C13), the
+   binary's own families are consistent and no exposed series uses (or suffix-collides with)
+   one of their names *)
+Definition stmt_scrape_ok : Prop := forall f cache t0 ops holds,
+  cache_sound CS c_get c_add c_reset holds ->
+  (forall s, cache = Some s -> forall k v, ~ holds s k v) ->
   gather_ok builtins = true ->
   Forall (fun g => (forall s b, In s (snd g) -> In b builtins -> name_independent (sm_name s) b = true) ->
                    fst g = true)
